@@ -21,6 +21,15 @@ def rem1 (x : α) : α :=
   let r := x - trunc x
   if feq r (0.0 : α) then x * (0.0 : α) else r
 
+/-- Rust `f64::rem_euclid(1.0)` (core/std `f64::rem_euclid`):
+    `let r = self % rhs; if r < 0.0 { r + rhs.abs() } else { r }` with `rhs = 1.0`.
+    Over ℝ this is `x − ⌊x⌋ ∈ [0, 1)`.  In binary64 `r + 1.0` is a rounded addition: for a tiny negative
+    remainder (`−2⁻⁵⁴ ≤ r < 0`) it rounds to exactly `1.0` (documented for `rem_euclid`), and `r = -0.0`
+    is not `< 0.0`, so it is returned as is — both mirrored literally by this definition. -/
+def remEuclid1 (x : α) : α :=
+  let r := rem1 x
+  if r < (0.0 : α) then r + (1.0 : α) else r
+
 /-- mirrors: modulator/lfo.rs::Waveform -/
 inductive Waveform (α : Type) where
   | sine
@@ -101,7 +110,7 @@ def Lfo.update (l : Lfo α) (dt : α) (info : Info α) : Lfo α :=
   let amplitude := (l.amplitude.update tw64 dt info).1
   let offset := (l.offset.update tw64 dt info).1
   let phase := l.phase + dt * frequency.value
-  let phase := rem1 phase
+  let phase := remEuclid1 phase
   { l with
     frequency := frequency
     amplitude := amplitude
